@@ -85,6 +85,19 @@ PROPS["C17"] = dict(level="proof", units=[U(["contracts.matrices"], PB, timeout_
 PROPS["C15"] = dict(level="proof", units=[U(["contracts.problems"], f"{t}.transition", timeout_ms=30000, wall_s=1200) for t in (DM, HX, MJ, FO)], assumptions=[ARITH, ENGINE])
 PROPS["C13"] = dict(level="proof", units=[U(["contracts.probabilities"], f"{DM}.{m}", timeout_ms=20000) for m in ("_convert_gamma_parameters", "_calculate_demand_probabilities")], lean=["telescope"], assumptions=[ARITH, ENGINE])
 
+CFGS = ["mdpax.solvers.value_iteration.ValueIterationConfig", "mdpax.solvers.policy_iteration.PolicyIterationConfig",
+        "mdpax.solvers.relative_value_iteration.RelativeValueIterationConfig", "mdpax.solvers.periodic_value_iteration.PeriodicValueIterationConfig",
+        "mdpax.solvers.semi_async_value_iteration.SemiAsyncValueIterationConfig", "mdpax.problems.forest.ForestConfig",
+        "mdpax.problems.perishable_inventory.de_moor_single_product.DeMoorSingleProductPerishableConfig",
+        "mdpax.problems.perishable_inventory.hendrix_two_product.HendrixTwoProductPerishableConfig"]
+C20M = ["contracts.logging_configs", "contracts.validators"]
+PROPS["C20"] = dict(level="proof",
+    units=[U(C20M, "mdpax.utils.logging.get_convergence_format"), U(C20M, "mdpax.core.solver.Solver._setup_config"),
+           U(C20M, f"{VI}._setup_convergence_testing", only=["full."], tag="full")]
+          + [U(C20M, f"{c}.__post_init__") for c in CFGS],
+    replayers=[("*", "replay_c20.py")],
+    assumptions=[ARITH, ENGINE])
+
 HOOK_COMMITS = []
 NOT_APPLICABLE = {
     "C11": "crash atomicity and writer-thread interleavings live inside Orbax's commit protocol, which is not code of this repository; contracts on mdpax's calls can only assume atomic commit, not decide it (DESIGN.md section 6 C11). The contract-shaped fragments (step label, no mutation of a state handed to an asynchronous save, latest-step selection) are discharged under C09/C10/C12.",
